@@ -154,9 +154,11 @@ class _Fold(ast.NodeTransformer):
                     b = getattr(node, fld, None)
                     if isinstance(b, list) and b and isinstance(b[0], ast.stmt):
                         for i, st in enumerate(b):
-                            if isinstance(st, ast.Assign) and len(st.targets) == 1 and isinstance(st.targets[0], ast.Name) and st.targets[0].id in multi \
+                            tgt_ = st.targets[0] if isinstance(st, ast.Assign) and len(st.targets) == 1 else \
+                                (st.target if isinstance(st, ast.AnnAssign) and st.value is not None else None)
+                            if isinstance(tgt_, ast.Name) and tgt_.id in multi \
                                     and i + 1 < len(b) and not any(isinstance(x, (ast.Yield, ast.YieldFrom, ast.Lambda, ast.NamedExpr)) for x in ast.walk(st.value)):
-                                nm = st.targets[0].id
+                                nm = tgt_.id
                                 for parent, fld2, idx in _slots(b[i + 1]):
                                     cur = getattr(parent, fld2) if idx is None else getattr(parent, fld2)[idx]
                                     if isinstance(cur, ast.Name) and cur.id == nm:
@@ -611,6 +613,159 @@ class _MapCalls(ast.NodeTransformer):
             new = ast.ListComp(elt=g.elt, generators=g.generators) if c.func.id == "list" else ast.SetComp(elt=g.elt, generators=g.generators)
             return ast.copy_location(new, c)
         return c
+
+
+class _DeferredDefaults:
+    """A local dictionary that only collects defaults for another one:
+
+        D = {}                                  (bound once, at the top level of the function body)
+        ... D["k"] = V ...                      (constant keys, each key stored by one statement, no store inside a loop)
+        for k, v in D.items(): T.setdefault(k, v)
+
+    with D mentioned nowhere else and T not mentioned between the binding of D and the loop, is `T.setdefault("k", V)` at each
+    store: nothing reads or writes T in between, so setting the default early or late gives the same dictionary, keys in the same order."""
+    def __init__(self):
+        self.rewritten = 0
+
+    def visit(self, tree: ast.AST):
+        for fn in [n for n in ast.walk(tree) if isinstance(n, _FUNCS)]:
+            self._fn(fn)
+        return tree
+
+    def _fn(self, fn) -> None:
+        body = fn.body
+        for i, st in enumerate(body):
+            name = None
+            if isinstance(st, ast.Assign) and len(st.targets) == 1 and isinstance(st.targets[0], ast.Name) and isinstance(st.value, ast.Dict) and not st.value.keys:
+                name = st.targets[0].id
+            elif isinstance(st, ast.AnnAssign) and isinstance(st.target, ast.Name) and isinstance(st.value, ast.Dict) and not st.value.keys:
+                name = st.target.id
+            if name is None:
+                continue
+            # the consuming loop, later in the same block
+            j = next((k for k in range(i + 1, len(body)) if self._consumer(body[k], name) is not None), None)
+            if j is None:
+                continue
+            tname = self._consumer(body[j], name)
+            mentions = [x for x in _own_nodes(fn) if isinstance(x, ast.Name) and x.id == name]
+            stores: List[ast.Assign] = []
+            ok = True
+            keys = set()
+
+            def scan(stmts: List[ast.stmt], in_loop: bool) -> None:
+                nonlocal ok
+                for s_ in stmts:
+                    if isinstance(s_, ast.Assign) and len(s_.targets) == 1 and isinstance(s_.targets[0], ast.Subscript) and isinstance(s_.targets[0].value, ast.Name) \
+                            and s_.targets[0].value.id == name:
+                        k_ = s_.targets[0].slice
+                        if in_loop or not (isinstance(k_, ast.Constant) and isinstance(k_.value, str)) or k_.value in keys \
+                                or any(isinstance(x, ast.Name) and x.id in (name, tname) for x in ast.walk(s_.value)):
+                            ok = False
+                        else:
+                            keys.add(k_.value)
+                            stores.append(s_)
+                        continue
+                    if any(isinstance(x, ast.Name) and x.id == tname for x in ast.walk(s_) if not isinstance(s_, (ast.If, ast.Try, ast.With, ast.For, ast.While))):
+                        ok = False
+                    if isinstance(s_, (ast.If, ast.While)) and any(isinstance(x, ast.Name) and x.id in (tname, name) for x in ast.walk(s_.test)):
+                        ok = False
+                    for fld in ("body", "orelse", "finalbody"):
+                        sub = getattr(s_, fld, None)
+                        if isinstance(sub, list) and sub and isinstance(sub[0], ast.stmt):
+                            scan(sub, in_loop or isinstance(s_, (ast.For, ast.While, ast.AsyncFor)))
+                    for h in getattr(s_, "handlers", []) or []:
+                        scan(h.body, in_loop)
+                    if isinstance(s_, _FUNCS + (ast.ClassDef,)):
+                        ok = False
+
+            scan(body[i + 1:j], False)
+            # every mention of D is accounted for: the binding, the stores, the loop header
+            if not ok or not stores or len(mentions) != 1 + len(stores) + 1:
+                continue
+            for s_ in stores:
+                call = ast.Call(func=ast.Attribute(value=ast.Name(id=tname, ctx=ast.Load()), attr="setdefault", ctx=ast.Load()),
+                                args=[s_.targets[0].slice, s_.value], keywords=[])
+                new = ast.copy_location(ast.Expr(value=call), s_)
+                ast.fix_missing_locations(new)
+                self._replace(fn, s_, new)
+            del body[j]
+            del body[i]
+            self.rewritten += 1
+            return self._fn(fn)
+
+    @staticmethod
+    def _consumer(st: ast.stmt, name: str) -> Optional[str]:
+        if isinstance(st, ast.For) and not st.orelse and isinstance(st.target, ast.Tuple) and len(st.target.elts) == 2 \
+                and all(isinstance(x, ast.Name) for x in st.target.elts) and isinstance(st.iter, ast.Call) and isinstance(st.iter.func, ast.Attribute) \
+                and st.iter.func.attr == "items" and not st.iter.args and isinstance(st.iter.func.value, ast.Name) and st.iter.func.value.id == name \
+                and len(st.body) == 1 and isinstance(st.body[0], ast.Expr) and isinstance(st.body[0].value, ast.Call):
+            c = st.body[0].value
+            k_, v_ = st.target.elts
+            if isinstance(c.func, ast.Attribute) and c.func.attr == "setdefault" and isinstance(c.func.value, ast.Name) and c.func.value.id != name \
+                    and len(c.args) == 2 and not c.keywords and isinstance(c.args[0], ast.Name) and c.args[0].id == k_.id \
+                    and isinstance(c.args[1], ast.Name) and c.args[1].id == v_.id:
+                return c.func.value.id
+        return None
+
+    @staticmethod
+    def _replace(root: ast.AST, old: ast.stmt, new: ast.stmt) -> None:
+        for n in ast.walk(root):
+            for fld in ("body", "orelse", "finalbody"):
+                b = getattr(n, fld, None)
+                if isinstance(b, list):
+                    for i, x in enumerate(b):
+                        if x is old:
+                            b[i] = new
+                            return
+
+
+class _ModuleTables(ast.NodeTransformer):
+    """`for row in TABLE:` where TABLE is a module-level name bound exactly once to a tuple display of pure elements (names, constants,
+    tuples of those) and is no local of the function: the header reads the display itself (which `_Unroll` may then write out).
+    `getattr(x, "name")` with a literal identifier and no default is `x.name`."""
+    def __init__(self, tree: ast.Module):
+        self.changed = 0
+        binds: Dict[str, int] = {}
+        self.tables: Dict[str, ast.Tuple] = {}
+        for n in ast.walk(tree):
+            if isinstance(n, ast.Name) and not isinstance(n.ctx, ast.Load):
+                binds[n.id] = binds.get(n.id, 0) + 1
+            elif isinstance(n, (ast.Global, ast.Nonlocal)):
+                for nm in n.names:
+                    binds[nm] = binds.get(nm, 0) + 2
+            elif isinstance(n, ast.arg):
+                binds[n.arg] = binds.get(n.arg, 0) + 2
+        for st in tree.body:
+            tgt = val = None
+            if isinstance(st, ast.Assign) and len(st.targets) == 1 and isinstance(st.targets[0], ast.Name):
+                tgt, val = st.targets[0].id, st.value
+            elif isinstance(st, ast.AnnAssign) and isinstance(st.target, ast.Name) and st.value is not None:
+                tgt, val = st.target.id, st.value
+            if tgt is not None and binds.get(tgt) == 1 and isinstance(val, ast.Tuple) and 1 <= len(val.elts) <= 6 and self._row(val):
+                self.tables[tgt] = val
+
+    def _row(self, e: ast.AST) -> bool:
+        if isinstance(e, ast.Tuple):
+            return all(self._row(x) for x in e.elts)
+        return isinstance(e, (ast.Name, ast.Constant)) or (isinstance(e, ast.Attribute) and _pure(e))
+
+    def visit_For(self, node: ast.For):
+        self.generic_visit(node)
+        if isinstance(node.iter, ast.Name) and node.iter.id in self.tables:
+            import copy
+            node.iter = ast.copy_location(copy.deepcopy(self.tables[node.iter.id]), node.iter)
+            ast.fix_missing_locations(node.iter)
+            self.changed += 1
+        return node
+
+    def visit_Call(self, node: ast.Call):
+        self.generic_visit(node)
+        if isinstance(node.func, ast.Name) and node.func.id == "getattr" and len(node.args) == 2 and not node.keywords \
+                and isinstance(node.args[1], ast.Constant) and isinstance(node.args[1].value, str) and node.args[1].value.isidentifier() \
+                and isinstance(node.args[0], ast.Name):
+            self.changed += 1
+            return ast.copy_location(ast.Attribute(value=node.args[0], attr=node.args[1].value, ctx=ast.Load()), node)
+        return node
 
 
 class _Unroll(ast.NodeTransformer):
@@ -1550,6 +1705,13 @@ def normalise(tree: ast.Module, imported_gens: Optional[Dict[str, ast.FunctionDe
         gi.visit(tree)
     tree._tpsa_gen_inlined = gi.inlined  # type: ignore[attr-defined]
     _SplitPairs().visit(tree)
+    _DeferredDefaults().visit(tree)
+    mt0 = _ModuleTables(tree)
+    mt0.visit(tree)
+    if mt0.changed:
+        # a loop over a module-level table is written out before the loop shapes are unified (which would give its body a `continue`)
+        _Unroll().visit(tree)
+        _ModuleTables(tree).visit(tree)
     ls = _LoopShapes()
     ls.visit(tree)
     sk = _SinkTail()
@@ -1567,8 +1729,10 @@ def normalise(tree: ast.Module, imported_gens: Optional[Dict[str, ast.FunctionDe
     _MapCalls().visit(tree)
     f = _Fold()
     f.visit(tree)  # (`table = (...)` followed by `for row in table:` becomes a loop over the display)
+    _ModuleTables(tree).visit(tree)
     u = _Unroll()
     u.visit(tree)
+    _ModuleTables(tree).visit(tree)  # (`getattr(self, name)` whose name became a literal when the table was written out)
     f2 = _Fold()
     f2.visit(tree)
     gl = _GenexpLoops()
